@@ -302,6 +302,33 @@ def r4_scope_discipline(ctx):
             ctx.bad("redeclare-rebinds|%s" % fid.split("::")[-1], f.where(), "%s no longer rebinds an existing slot of the current scope" % fid.split("::")[-1])
 
 
+def r4b_arguments_belong_to_the_caller(ctx):
+    """Argument expressions are evaluated in the caller's scope: all of them before the callee's parameter scope exists.  Once
+    that scope is pushed, nothing but the binding of the already computed values happens until the body runs (an argument
+    evaluated later would see the half-built scope of the *next* activation - under recursion its earlier parameters - and an
+    error in it would leave the scope pushed)."""
+    f = ctx.need(RT + "eval_function_call")
+    ctx.touch(f)
+    pushes = [c for c in f.calls() if (c.callee or "").endswith("Runtime::push_scope_with_capacity") or (c.callee or "").endswith("Runtime::push_scope")]
+    body = [c for c in f.calls() if (c.callee or "").endswith("Runtime::exec_block_with_flow")]
+    if not pushes or not body:
+        ctx.bad("call|shape", f.where(), "cannot see the parameter scope push / the body execution in eval_function_call")
+        return
+    region = f.reach_from_succ(pushes[0].block, removed_nodes=[c.block for c in body])
+    late = [c for c in f.calls() if c.block in region and (c.callee or "").split("::")[-1] in ("eval_expr", "eval_function_call", "eval_member_call", "eval_builtin_call")]
+    if late:
+        ctx.bad("call|argument-evaluated-in-callee-scope", f.where(late[0].block), "eval_function_call evaluates an argument after the callee's parameter scope has been pushed: the argument's variables are looked up with the new activation's parameters already in place (ids are per function, so under recursion `f(n minus 1, n)` reads the new n), and an error in the argument returns with the scope still pushed")
+    else:
+        ctx.ok("call|arguments-before-scope", f.where(pushes[0].block), "no evaluation between the push of the parameter scope and the body")
+    # and the scope is popped on every path that follows the body, error or not
+    pops = [c for c in f.calls() if (c.callee or "").endswith("Runtime::pop_scope")]
+    r = f.reach_from_succ(body[0].block, removed_nodes=[c.block for c in pops])
+    if r & set(f.exits()):
+        ctx.bad("call|scope-not-popped", f.where(body[0].block), "a path from the body's execution to the end of eval_function_call does not pop the parameter scope")
+    else:
+        ctx.ok("call|scope-popped", f.where(pops[0].block) if pops else f.where(), "pop_scope on every path after the body (before `?`)")
+
+
 def r5_recorded_is_consumed(ctx):
     """Every binding kind the resolver records is the one the runtime asks for on the same node kind."""
     pairs = [
@@ -440,7 +467,7 @@ def r5c_query_on_the_variable_node(ctx):
     ctx.floor("bound_expr_local queries", n, 6)
 
 
-RULES = [("C04-R1", r1_id_directed_lookup), ("C04-R2", r2_innermost_first), ("C04-R3", r3_sorted_tables), ("C04-R4", r4_scope_discipline),
+RULES = [("C04-R1", r1_id_directed_lookup), ("C04-R2", r2_innermost_first), ("C04-R3", r3_sorted_tables), ("C04-R4", r4_scope_discipline), ("C04-R4b", r4b_arguments_belong_to_the_caller),
          ("C04-R5", r5_recorded_is_consumed), ("C04-R5b", r5b_record_unconditional), ("C04-R5c", r5c_query_on_the_variable_node)]
 
 EXPLANATION = (
